@@ -210,4 +210,4 @@ class Ledger:
 
 
 def tol(ref: float, n: int = 1) -> float:
-    return 1e-5 * max(1.0, abs(ref)) * math.sqrt(max(n, 1))
+    return 1.5e-6 * max(1.0, abs(ref)) * math.sqrt(max(n, 1))  # float32 sums stay within ~2e-7 relative (measured)
